@@ -1377,3 +1377,9 @@ impl<'a, M: Matcher> Matcher for &'a M {
         (*self).find_candidate_line(haystack)
     }
 }
+
+#[cfg(kani)]
+mod verif_kani {
+    use super::*;
+    include!(concat!(env!("RG_VERIF_KANI_DIR"), "/matcher/lib.rs"));
+}
